@@ -37,16 +37,32 @@ Proof.
 Qed.
 Print Assumptions C02_roundtrip_untied.
 
-(* the hard target in terms of the requested rate, spelled out for FNR: the false-negative count is
-   within one sample of r * N_all clipped to the achievable range [0, N_hard].
-   (_partial: this explicit form of the rescaling is proved for FNR only; for the other five metrics
-   the theorem above is stated with the rescaling expression of the code.) *)
-Theorem C02_roundtrip_fnr_rate_partial :
+(* the same with the rescaling spelled out in terms of the requested rate r, for the four class
+   metrics: the defining count is within one sample of r * N_all clipped to the achievable range
+   ([0, N] false negatives / false positives; [e, N + e] true positives / negatives, written here
+   after subtracting the e easy samples).  (_partial only in that TOPR/TONR are stated with the
+   rescaling expression of the code in the theorem above.) *)
+Theorem C02_roundtrip_rates_partial :
   forall (succ pred : Q -> Q), (forall x, x < succ x) -> (forall x, pred x < x) ->
-  forall s r T, ssorted (pos s) -> (0 <= easy_pos s)%Z -> threshold_at_fnr succ pred s r Linear = Ret T ->
-  within1 (cfn (cm s (Fin T))) (clipQ 0 (inject_Z (len (pos s))) (r * inject_Z (len (pos s) + easy_pos s))).
-Proof. intros succ pred Hs Hp s r T. exact (roundtrip_fnr_rate succ pred s r T Hs Hp). Qed.
-Print Assumptions C02_roundtrip_fnr_rate_partial.
+  forall s r T,
+  (ssorted (pos s) -> (0 <= easy_pos s)%Z -> threshold_at_tpr succ pred s r Linear = Ret T ->
+     within1 (ctp (cm s (Fin T)) - easy_pos s)
+             (clipQ 0 (inject_Z (len (pos s))) (r * inject_Z (len (pos s) + easy_pos s) - inject_Z (easy_pos s)))) /\
+  (ssorted (pos s) -> (0 <= easy_pos s)%Z -> threshold_at_fnr succ pred s r Linear = Ret T ->
+     within1 (cfn (cm s (Fin T))) (clipQ 0 (inject_Z (len (pos s))) (r * inject_Z (len (pos s) + easy_pos s)))) /\
+  (ssorted (neg s) -> (0 <= easy_neg s)%Z -> threshold_at_tnr succ pred s r Linear = Ret T ->
+     within1 (ctn (cm s (Fin T)) - easy_neg s)
+             (clipQ 0 (inject_Z (len (neg s))) (r * inject_Z (len (neg s) + easy_neg s) - inject_Z (easy_neg s)))) /\
+  (ssorted (neg s) -> (0 <= easy_neg s)%Z -> threshold_at_fpr succ pred s r Linear = Ret T ->
+     within1 (cfp (cm s (Fin T))) (clipQ 0 (inject_Z (len (neg s))) (r * inject_Z (len (neg s) + easy_neg s)))).
+Proof.
+  intros succ pred Hs Hp s r T.
+  split; [intros; now apply (roundtrip_tpr_rate succ pred s r T Hs Hp)|].
+  split; [intros; now apply (roundtrip_fnr_rate succ pred s r T Hs Hp)|].
+  split; [intros; now apply (roundtrip_tnr_rate succ pred s r T Hs Hp)|].
+  intros; now apply (roundtrip_fpr_rate succ pred s r T Hs Hp).
+Qed.
+Print Assumptions C02_roundtrip_rates_partial.
 
 (* --- ties allowed: the metric just below and just above the returned threshold (counting with <
    and with <=) brackets the hard target to the same tolerance; stated on _threshold_at_ratio for any
@@ -94,7 +110,23 @@ Theorem C02_metric_lower_le_higher :
 Proof. exact lower_higher_counts. Qed.
 Print Assumptions C02_metric_lower_le_higher.
 
-(* Not proved here (kept by correspondence + oracle on every run): monotonicity of the threshold in r. *)
+(* the threshold is a monotone function of the target, for every method: non-decreasing for the
+   normalised increasing metric, and through _threshold_at_ratio non-decreasing / non-increasing
+   according to whether the direction is flipped (decreasing metric xor score_class = neg) *)
+Theorem C02_threshold_monotone_in_target :
+  forall (succ pred : Q -> Q), (forall x, x < succ x) -> (forall x, pred x < x) ->
+  forall (l : list Q) (u u' : Q) (lc : bool) (m : method), sorted l -> (1 <= len l)%Z -> u <= u' ->
+  inv_incr succ pred l u lc m <= inv_incr succ pred l u' lc m.
+Proof. exact inv_monotone. Qed.
+Print Assumptions C02_threshold_monotone_in_target.
+
+Theorem C02_threshold_at_ratio_monotone :
+  forall (succ pred : Q -> Q) s l u u' inc rc m,
+  (forall x, x < succ x) -> (forall x, pred x < x) -> sorted l -> (1 <= len l)%Z -> u <= u' ->
+  if flipped s inc then threshold_at_ratio succ pred s l u' inc rc m <= threshold_at_ratio succ pred s l u inc rc m
+  else threshold_at_ratio succ pred s l u inc rc m <= threshold_at_ratio succ pred s l u' inc rc m.
+Proof. exact tar_monotone. Qed.
+Print Assumptions C02_threshold_at_ratio_monotone.
 
 Example C02_example :
   ssorted [1#1; 2#1; 4#1; 8#1] /\
